@@ -24,8 +24,20 @@ package main
 //	                                    a record (applyPut hands no existing entry to the callbacks: C16's freshness);
 //	                                    the rest of that case is not judged any more
 //
+//	index:list-left-the-index           List / RangeScan returned a primary key that has no entry in the index asked
+//
+// Index names come from FAMILIES of names that collide under any plausible mangling on the path from the request
+// to the Pebble key (printf verbs: "%" "%%" "cpu%" "a%sb"/"ab" "%s" "%!s(MISSING)"; url-escape look-alikes; the
+// words of the layout itself "__oxia" "idx"; names that are prefixes of each other; a 300-byte name; control
+// bytes), several of one family in the same DB; secondary keys, primary keys and query bounds carry the same
+// characters.  All of these are inside the alphabet of the theorems (name without '/', secondary key bytes > 1):
+// the byte-level key construction is what this leg covers.
+// "wild" cases add what the server accepts but the layout cannot represent (name with '/', empty name, secondary key
+// with \x01 / \x00 / empty): they are compared with the model only (which transcribes the ambiguity); what the
+// reference would say is counted under c15:wild:* (see Properties/C15.v, *_refuted).
+//
 // Corpus / replay lines of kind "iseq" have the grammar of "seq"; they are executed with these verdicts and
-// recorded as "seq" cases for the model.
+// recorded as "seq" cases for the model ("wseq": same, not judged by the reference).
 
 import (
 	"bytes"
@@ -46,15 +58,39 @@ import (
 func init() {
 	modes["c15"] = func(o *hx.Out, f hx.Flags) { c15Gen(o, hx.NewRng(f.Seed^0xc15), f.N) }
 	replayKinds["iseq"] = c15Replay
+	replayKinds["wseq"] = c15Replay
 }
 
 const c15IdxPrefix = "__oxia/idx/"
 
 var c15Names = []string{"a", "a-", "a0", "b"}
-var c15Skeys = []string{"k", "k/1", "k/2", "m", "a", "a/b", "z", "0", "k-", "k0", "\xffx", "m n", "\x02", "~", "k/", "a-", "b"}
+
+var c15LongName = strings.Repeat("n", 300)
+
+// families of index names; every name is non-empty and free of '/'
+var c15Families = [][]string{
+	c15Names,
+	{"%", "%%", "%%%", "%25"},
+	{"cpu%", "cpu", "cpu%!", "cpu%s"},
+	{"a%sb", "ab", "a%db", "a%!s(MISSING)b"},
+	{"%s", "%d", "%v", "%!s(MISSING)"},
+	{"__oxia", "idx", "__oxia\x01", "_"},
+	{"a b", "a+b", "a%20b", "a%2Fb"},
+	{"n", "nn", c15LongName, c15LongName + "n"},
+	{"a\x01", "a\x01b", "a\nb", "\xff"},
+	{"%[1]s", "%[2]s", "%*d", "%%s"},
+}
+
+// what the server accepts although the key layout cannot represent it (wild cases only)
+var c15WildNames = []string{"a/b", "a", "a/", "", "/", "__oxia/idx"}
+var c15WildSkeys = []string{"k\x01x", "", "\x00", "k\x00", "\x01", "b/c", "k"}
+
+var c15Skeys = []string{"k", "k/1", "k/2", "m", "a", "a/b", "z", "0", "k-", "k0", "\xffx", "m n", "\x02", "~", "k/", "a-", "b",
+	"%", "%%", "%s", "a%sb", "ab", "%!s(MISSING)", "k%2F", "__oxia", "idx", "%d"}
+var c15LongSkey = strings.Repeat("s", 200)
 var c15Pks = []string{"a", "b", "c", "p1", "p2", "a/b", "a/c", "a/b/c", "a%2F", "k\x01x", "\xffz", "a b", "\xc3\xa9", "0", "-", ".", "%",
-	"x?y", "/", "//", "_", "zz", "zz/y", "m/n/o/p", "a-", "a0"}
-var c15PksFlat = []string{"a", "b", "c", "p1", "p2", "a%2F", "k\x01x", "\xffz", "a b", "0", "-", ".", "%", "_", "zz"}
+	"x?y", "/", "//", "_", "zz", "zz/y", "m/n/o/p", "a-", "a0", "%s", "%%", "%25", "a%sb", "ab", "a+b", "__oxia", "idx/x", "%zz"}
+var c15PksFlat = []string{"a", "b", "c", "p1", "p2", "a%2F", "k\x01x", "\xffz", "a b", "0", "-", ".", "%", "_", "zz", "%s", "%%", "a%sb", "ab"}
 var c15SeqPrefixes = []string{"sq", "sq/x"}
 
 // ---------------------------------------------------------------- reference
@@ -198,6 +234,7 @@ type c15Run struct {
 	ref     *c15Ref
 	tag     string
 	tainted bool // a sequence put overwrote a live record (known finding): no further verdicts in this case
+	wild    bool // the case uses names / secondary keys the layout cannot represent: counted, not judged
 }
 
 func c15Key(name, skey, pk string) string {
@@ -206,6 +243,10 @@ func c15Key(name, skey, pk string) string {
 
 func (c *c15Run) viol(sig, format string, a ...any) {
 	if c.tainted {
+		return
+	}
+	if c.wild {
+		c.o.Count("c15:wild:reference-would-say:" + sig)
 		return
 	}
 	if sig == "index:mirror-broken" && c.ref.seqOverKey != "" {
@@ -304,10 +345,23 @@ func (c *c15Run) checkRead(op, res string) {
 	case "IL":
 		name, a, b := unhexs(f[1]), unhexs(f[2]), unhexs(f[3])
 		var ks []string
-		for _, e := range c15InRange(c.ref.entries(name), a, b) {
+		all := c.ref.entries(name)
+		for _, e := range c15InRange(all, a, b) {
 			ks = append(ks, hexs(e.pk))
 		}
 		if want := join(ks, ","); res != want {
+			if res != "-" && res != "panic" && !strings.HasPrefix(res, "err:") {
+				for _, h := range strings.Split(res, ",") {
+					in := false
+					for _, e := range all {
+						in = in || hexs(e.pk) == h
+					}
+					if !in {
+						c.viol("index:list-left-the-index", "List(index %q, [%q,%q)) returned %q, which has no entry in index %q; result %s, reference %s", name, a, b, unhexs(h), name, res, want)
+						return
+					}
+				}
+			}
 			c.viol("index:list-differs-from-reference", "List(index %q, [%q,%q)) = %s, reference %s", name, a, b, res, want)
 		}
 	case "IS":
@@ -341,7 +395,7 @@ func c15Replay(o *hx.Out, t []string) {
 	hx.Must(err)
 	ops := strings.Split(t[4], ";")
 	runCase(o, "seq", shard, false, "replay", "", func(r *runner) {
-		c := &c15Run{r: r, o: o, ref: &c15Ref{decl: map[string][][2]string{}}, tag: "replay"}
+		c := &c15Run{r: r, o: o, ref: &c15Ref{decl: map[string][][2]string{}}, tag: "replay", wild: t[0] == "wseq"}
 		for _, op := range ops {
 			c.do(op)
 		}
@@ -355,6 +409,8 @@ type c15G struct {
 	*gen
 	c      *c15Run
 	names  []string // the indexes this case writes to
+	family []string // the names the queries are drawn from (the written ones and their look-alikes)
+	skeys  []string
 	pks    []string
 	closed map[int64]bool
 	bare   bool
@@ -396,7 +452,7 @@ func (g *c15G) idx() [][2]string {
 	var ix [][2]string
 	n := hx.Pick(g.rng, []int{0, 1, 1, 1, 2, 2, 3, 4})
 	for i := 0; i < n; i++ {
-		ix = append(ix, [2]string{hx.Pick(g.rng, g.names), hx.Pick(g.rng, c15Skeys)})
+		ix = append(ix, [2]string{hx.Pick(g.rng, g.names), hx.Pick(g.rng, g.skeys)})
 	}
 	if len(ix) > 0 && g.rng.Chance(8) {
 		ix = append(ix, ix[0]) // the same pair twice in one record
@@ -534,10 +590,10 @@ func (g *c15G) queries(n int) {
 		case x < 8:
 			return hx.Pick(g.rng, edge)
 		}
-		return hx.Pick(g.rng, c15Skeys)
+		return hx.Pick(g.rng, g.skeys)
 	}
 	for i := 0; i < n; i++ {
-		name := hx.Pick(g.rng, c15Names) // also indexes this case never writes to
+		name := hx.Pick(g.rng, g.family) // also indexes this case never writes to
 		es := g.c.ref.entries(name)
 		switch g.rng.Intn(10) {
 		case 0, 1:
@@ -575,11 +631,41 @@ func c15Gen(o *hx.Out, rng *hx.Rng, n int) {
 			c := &c15Run{r: r, o: o, ref: &c15Ref{decl: map[string][][2]string{}}, tag: tag}
 			g := &c15G{gen: &gen{rng: crng, r: r, o: o, off: -1, ts: 1000 + uint64(crng.Intn(100000)), seqParts: map[string]int{}},
 				c: c, pks: c15Pks, closed: map[int64]bool{}}
-			// 1-4 indexes, neighbours in the key order
+			// 1-4 indexes of one family (neighbours in the key order / look-alikes under mangling); queries go to the
+			// whole family
+			g.skeys = c15Skeys
+			fam := c15Families[0]
+			if crng.Chance(60) {
+				fam = c15Families[1+crng.Intn(len(c15Families)-1)]
+			}
 			k := 1 + crng.Intn(4)
-			start := crng.Intn(len(c15Names))
+			start := crng.Intn(len(fam))
 			for i := 0; i < k; i++ {
-				g.names = append(g.names, c15Names[(start+i)%len(c15Names)])
+				g.names = append(g.names, fam[(start+i)%len(fam)])
+			}
+			g.family = append([]string(nil), fam...)
+			if crng.Chance(12) { // indexes of two families side by side
+				other := c15Families[crng.Intn(len(c15Families))]
+				g.names = append(g.names, hx.Pick(crng, other))
+				g.family = append(g.family, other...)
+				o.Count("c15:case:two-families")
+			}
+			if crng.Chance(15) {
+				g.skeys = append(append([]string(nil), c15Skeys...), c15LongSkey, c15LongSkey+"/"+c15LongSkey)
+			}
+			if flavour == 8 && crng.Chance(50) {
+				// what the server accepts but the layout cannot represent: model comparison only
+				c.wild = true
+				g.names = append(g.names, hx.Pick(crng, c15WildNames), hx.Pick(crng, c15WildNames))
+				g.family = append(g.family, c15WildNames...)
+				g.skeys = append(append([]string(nil), g.skeys...), c15WildSkeys...)
+				o.Count("c15:case:wild")
+			}
+			for _, nm := range g.names {
+				if strings.ContainsAny(nm, "%") {
+					o.Count("c15:case:printf-verb-in-an-index-name")
+					break
+				}
 			}
 			o.Count(fmt.Sprintf("c15:case:%d-indexes", k))
 			bare := flavour < 3
